@@ -13,6 +13,16 @@ tmunu       T30, T33 of the real method vs plasma-frame T^{mu nu} written from t
             species with totalDOFs.  Fed with the moments getDeltas just returned and with
             synthetic one-hot / random moments.
 linearity   Delta(a f + b g) = a Delta(f) + b Delta(g);  Delta(+-2^j f) = +-2^j Delta(f).
+history     kind=hist: getDeltas on a solver, then the grid object it shares is rescaled in
+            place (changeMomentumFalloffScale / changePositionFalloffScale, Grid3Scales with
+            new tails / thickness / centre; far and near-identity factors; sequences; away
+            and back), then getDeltas on the SAME solver.  Judged by the closed form for the
+            momentum scale the grid has NOW; against a solver built after the rescale on the
+            same grid object; against a solver built before the rescale and first used
+            after it; against a solver on a grid constructed directly in the final state;
+            and, across position-only steps, against its own earlier output for the same
+            array.  Observed on the unchanged tree: all four comparisons bit-identical
+            (quick seeds 0-4, thorough 0), closed-form residual <= 0.03 tolerance.
 selftest    the construction itself against scipy dblquad / tplquad over physical momenta
             (a failure is a harness error -> run inconclusive, never a verdict on the code).
 smooth      poly x exp(-E/T) deviations vs dblquad: recorded, never judged (DESIGN C13).
@@ -42,7 +52,12 @@ RULE = ("exact: stratified over every odd N in 3..13 (plus 15, 19, 25 at small M
         "the target moment rotates over (species, z) rows.  A case is non-trivial when at "
         "least one row has |pi^2 c00| > 1e-3 of the rounding scale (the comparison has "
         "content); distinct by (N, M, grid, bases, mass kind, decade of T0, species, k, "
-        "degree mode, seed mod 16).  selftest/smooth cases never count as non-trivial.")
+        "degree mode, seed mod 16).  selftest/smooth cases never count as non-trivial.  "
+        "hist: 7 plans (mom, mom-near, pos, pos-near, both, seq of 3-5 steps, mom-return) x N "
+        "in 3..13 x M in {3,4,5,8} x grid class x basis pair x mass kind; 1-3 getDeltas calls "
+        "before the first rescale, optional setBackground after each rescale, optional "
+        "getDeltas at the intermediate stages; non-trivial when the grid's cached momenta / "
+        "positions really moved and a judged row after the rescale has content.")
 ASSUMPTIONS = [
     "Gauss-Chebyshev-Lobatto orthogonality (int T_m/sqrt(1-x^2) = pi delta_m0) and "
     "numpy.polynomial.chebyshev algebra are the reference for the exactness family",
@@ -61,8 +76,18 @@ FLOORS = {
               "mon": {"getDeltas_calls": 1200, "rows_Delta00": 400, "rows_Delta02": 400,
                       "rows_Delta20": 400, "rows_Delta11": 400, "tmunu_calls": 2000,
                       "tmunu_onehot": 800, "additivity_rows": 6000, "scaling_rows": 6000,
-                      "oracle_selftest_ok": 9, "smooth_recorded": 4},
-              "cls": {"N=3": 20, "N=5": 20, "N=7": 20, "N=9": 20, "N=11": 20, "N=13": 20,
+                      "oracle_selftest_ok": 9, "smooth_recorded": 4,
+                      # history dimension (observed seeds 0-4: 108-111 rescales, 146-199 rows
+                      # per moment, 151-161 stages, 4720-6208 / 3432-4040 / 1052-1544 rows)
+                      "hist_rescale_calls": 80, "hist_grid_state_changed": 80,
+                      "hist_stages_judged": 110, "hist_rows_Delta00": 100,
+                      "hist_rows_Delta02": 100, "hist_rows_Delta20": 100,
+                      "hist_rows_Delta11": 100, "hist_kept_vs_fresh_rows": 3300,
+                      "hist_uncalled_vs_fresh_rows": 2400, "hist_fresh_grid_rows": 2400,
+                      "hist_position_invariance_rows": 700},
+              "cls": {"hist": 50, "hist:mom": 7, "hist:mom-near": 7, "hist:pos": 7,
+                      "hist:pos-near": 7, "hist:both": 7, "hist:seq": 7, "hist:mom-return": 7,
+                      "hist:Grid": 20, "hist:Grid3Scales": 20, "N=3": 20, "N=5": 20, "N=7": 20, "N=9": 20, "N=11": 20, "N=13": 20,
                       "basis=Cardinal/Cardinal": 50, "basis=Cardinal/Chebyshev": 30,
                       "basis=Chebyshev/Chebyshev": 15, "basis=Chebyshev/Cardinal": 15,
                       "grid=Grid": 60, "grid=Grid3Scales": 60, "mass=massless": 15,
@@ -73,8 +98,17 @@ FLOORS = {
                          "rows_Delta20": 6000, "rows_Delta11": 6000, "tmunu_calls": 30000,
                          "tmunu_onehot": 11000, "additivity_rows": 100000,
                          "scaling_rows": 100000, "oracle_selftest_ok": 22,
-                         "smooth_recorded": 250},
-                 "cls": {"N=3": 300, "N=5": 300, "N=7": 300, "N=9": 300, "N=11": 300,
+                         "smooth_recorded": 250,
+                         "hist_rescale_calls": 600, "hist_grid_state_changed": 600,
+                         "hist_stages_judged": 800, "hist_rows_Delta00": 750,
+                         "hist_rows_Delta02": 750, "hist_rows_Delta20": 750,
+                         "hist_rows_Delta11": 750, "hist_kept_vs_fresh_rows": 25000,
+                         "hist_uncalled_vs_fresh_rows": 18000, "hist_fresh_grid_rows": 18000,
+                         "hist_position_invariance_rows": 5000},
+                 "cls": {"hist": 400, "hist:mom": 55, "hist:mom-near": 55, "hist:pos": 55,
+                         "hist:pos-near": 55, "hist:both": 55, "hist:seq": 55,
+                         "hist:mom-return": 55, "hist:Grid": 150, "hist:Grid3Scales": 150,
+                         "N=3": 300, "N=5": 300, "N=7": 300, "N=9": 300, "N=11": 300,
                          "N=13": 300, "basis=Chebyshev/Chebyshev": 200,
                          "grid=Grid3Scales": 1000, "mass=massless": 300, "mass=const10": 150,
                          "mass=wall10": 150, "deg=max": 1000, "rescale=momentum": 500,
@@ -110,6 +144,77 @@ def _exact_case(rng, N, M, i):
             "junk": bool(rng.random() < 0.5), "beyond": bool(rng.random() < 0.25),
             "rescale": str(rng.choice(("none", "none", "momentum", "position"))),
             "s": int(rng.integers(1 << 30))}
+
+
+HIST_PLANS = ("mom", "mom-near", "pos", "pos-near", "both", "seq", "mom-return")
+HIST_NS = (3, 5, 7, 9, 11, 13)
+HIST_MS = (3, 4, 5, 8)
+
+
+def _hist_factor(rng, near, span):
+    if near:
+        return 1.0 + float(rng.choice([-1, 1])) * 10.0 ** float(rng.uniform(-6.0, -2.0))
+    f = float(np.exp(rng.uniform(-np.log(span), np.log(span))))
+    return f if abs(np.log(f)) > 0.05 else 1.3
+
+
+def _hist_gen(rng, plan, j):
+    """One history: a solver is used (getDeltas), the grid object it shares is rescaled in
+    place (one or several steps), the same solver is used again.  Steps are stored in the
+    case: 'mom' steps as the new momentum scale in units of the initial one, 'pos' steps as
+    multipliers of the current tails / thickness and a shift of the centre in units of the
+    current thickness (Grid uses the thickness multiplier only)."""
+    N = int(HIST_NS[j % len(HIST_NS)])
+    M = int(HIST_MS[(j // len(HIST_NS) + j) % len(HIST_MS)])
+    c = _exact_case(rng, N, M, 0)
+    c.update(kind="hist", rescale="none", beyond=False, plan=plan,
+             grid="Grid" if (j // 2 + j) % 2 == 0 else "Grid3Scales")
+
+    def mom(near, span, rel):
+        return {"op": "mom", "near": bool(near), "rel": rel * _hist_factor(rng, near, span)}
+
+    def pos(near, span):
+        which = str(rng.choice(["tails", "thickness", "centre", "all"], p=[0.2, 0.3, 0.1, 0.4]))
+        st = {"op": "pos", "near": bool(near), "which": which, "fIn": 1.0, "fOut": 1.0,
+              "fL": 1.0, "dc": 0.0}
+        if c["grid"] == "Grid":
+            st.update(which="falloff", fL=_hist_factor(rng, near, span))
+            return st
+        if which in ("tails", "all"):
+            st.update(fIn=_hist_factor(rng, near, span), fOut=_hist_factor(rng, near, span))
+        if which in ("thickness", "all"):
+            st["fL"] = _hist_factor(rng, near, span)
+        if which in ("centre", "all"):
+            st["dc"] = (_hist_factor(rng, True, span) - 1.0) if near else float(rng.uniform(-1, 1))
+        return st
+
+    if plan in ("mom", "mom-near"):
+        steps = [mom(plan.endswith("near"), 5.0, 1.0)]
+    elif plan in ("pos", "pos-near"):
+        steps = [pos(plan.endswith("near"), 3.0)]
+    elif plan == "mom-return":       # away and back to the very same scale
+        steps = [mom(bool(rng.random() < 0.3), 5.0, 1.0),
+                 {"op": "mom", "near": False, "rel": 1.0}]
+    elif plan == "both":
+        a, b = bool(rng.random() < 0.3), bool(rng.random() < 0.3)
+        steps = [mom(a, 3.0, 1.0), pos(b, 3.0)]
+        if rng.random() < 0.5:
+            steps.reverse()
+    else:
+        steps, rel = [], 1.0
+        for _ in range(int(rng.integers(3, 6))):
+            if rng.random() < 0.55:
+                steps.append(mom(bool(rng.random() < 0.4), 2.0, rel))
+                rel = steps[-1]["rel"]
+            else:
+                steps.append(pos(bool(rng.random() < 0.4), 2.0))
+        if not any(st["op"] == "mom" for st in steps):
+            steps.append(mom(False, 2.0, rel))
+    c.update(steps=steps,
+             warm=int(rng.integers(1, 4)),          # getDeltas calls before the first rescale
+             rebg=bool(rng.random() < 0.5),         # setBackground again after every rescale
+             mid=bool(rng.random() < 0.6))          # getDeltas also at the intermediate stages
+    return c
 
 
 def generate(tier, seed):
@@ -165,6 +270,13 @@ def generate(tier, seed):
                       "m": float(rng.choice((0.0, 0.3, 1.0, 3.0, 10.0))),
                       "pure": bool((j // len(NS)) % 2 == 0),
                       "s": int(rng.integers(1 << 30))})
+    # history cases: own random stream, so that the older kinds keep their draws (and the
+    # calibration notes that refer to them stay valid)
+    hrng = np.random.default_rng(13100 + seed)
+    nh = 9 if tier == "quick" else 70            # per plan
+    for pi_, plan in enumerate(HIST_PLANS):
+        for j in range(nh):
+            cases.append(_hist_gen(hrng, plan, j + pi_))
     # cheap first, expensive spread out: shuffle deterministically so chunks are balanced
     order = rng.permutation(len(cases))
     cases = [cases[j] for j in order]
@@ -210,6 +322,10 @@ def _build(case, rng):
     L = float(10 ** rng.uniform(-1, 1)) / T0
     resc = case.get("rescale", "none")
     Tc = T0 * (float(rng.uniform(0.2, 5.0)) if resc == "momentum" else 1.0)   # construction scale
+    # state: everything a grid of this case is made from (history cases move it in place
+    # and rebuild fresh grids from it); ratio/smooth stay fixed over a grid's life
+    state = {"L": L, "T": Tc, "tailIn": None, "tailOut": None, "c": 0.0}
+    ratio = smooth = None
     if case["grid"] == "Grid":
         grid = WallGo.Grid(M, N, L, Tc)
         if resc == "position":
@@ -217,7 +333,9 @@ def _build(case, rng):
     else:
         ratio, smooth = float(rng.uniform(0.3, 0.7)), float(rng.uniform(0.05, 0.2))
         tmin = L * (0.5 + smooth) / ratio          # constructor's documented lower bound
-        grid = Grid3Scales(M, N, tmin * float(rng.uniform(1.2, 5)), tmin * float(rng.uniform(1.2, 5)),
+        state["tailIn"] = tmin * float(rng.uniform(1.2, 5))
+        state["tailOut"] = tmin * float(rng.uniform(1.2, 5))
+        grid = Grid3Scales(M, N, state["tailIn"], state["tailOut"],
                            L, Tc, ratioPointsWall=ratio, smoothing=smooth)
         if resc == "position":     # what EOM._updateGrid does between pressure evaluations
             grid.changePositionFalloffScale(tmin * float(rng.uniform(1.2, 5)),
@@ -225,6 +343,13 @@ def _build(case, rng):
                                             float(rng.uniform(-1, 1)) * L)
     if resc == "momentum":
         grid.changeMomentumFalloffScale(T0)
+
+    def new_grid(st):
+        """A grid object constructed directly in state st (no history)."""
+        if case["grid"] == "Grid":
+            return WallGo.Grid(M, N, st["L"], st["T"])
+        return Grid3Scales(M, N, st["tailIn"], st["tailOut"], st["L"], st["T"],
+                           ratioPointsWall=ratio, smoothing=smooth, wallCenter=st["c"])
     chi = R.chi_nodes(M, endpoints=True)
     a0, a1 = rng.uniform(-0.15, 0.15, size=2)
     phi0 = 0.5 * (1.0 - chi) + a0 * np.sin(np.pi * chi)
@@ -246,7 +371,7 @@ def _build(case, rng):
     bg = WallGo.BoltzmannBackground(vmid, vmid + dv * chi, fields,
                                     T0 * float(rng.uniform(0.7, 1.3)) * (1.0 + 0.1 * chi))
 
-    def solver(bM, bN):
+    def solver(bM, bN, grid=grid):
         s = WallGo.BoltzmannSolver(grid, bM, bN, "Spectral")
         s.updateParticleList(particles)
         s.setBackground(bg)
@@ -264,7 +389,8 @@ def _build(case, rng):
                          for sp in specs])
     return types.SimpleNamespace(grid=grid, T0=T0, fields=fields, particles=particles, specs=specs,
                                  vmid=vmid, bg=bg, solver=solver, eom=eom, msq=msq_rows,
-                                 N=N, M=M, P=P)
+                                 N=N, M=M, P=P, state=state, ratio=ratio, smooth=smooth,
+                                 new_grid=new_grid)
 
 
 def _mats(rig, bM, bN):
@@ -530,6 +656,273 @@ def _case_exact(case):
             "mon": mon}
 
 
+# ------------------------------------------------------------------------ kind = hist
+class _Oracle:
+    """Closed-form side of the exactness family for momentum scale T (nothing from the
+    grid object): nodes, momenta, measure, the four weights, quadrature weights."""
+
+    def __init__(self, rig, T, offset):
+        N, M, P = rig.N, rig.M, rig.P
+        self.N = N
+        self.rz, self.rp = R.nodes(N)
+        pz = R.pz_of(self.rz, T)[None, None, :, None]
+        pp = R.pp_of(self.rp, T)[None, None, None, :]
+        energy = np.sqrt(rig.msq[:, :, None, None] + pz ** 2 + pp ** 2)
+        self.target = (offset + np.arange(P)[:, None] + np.arange(M - 1)[None, :]) % 4
+        self.Wk = [R.weight(k, pz, pp, energy) for k in range(4)]
+        W = np.empty_like(energy)
+        for k in range(4):
+            W = np.where((self.target == k)[:, :, None, None], self.Wk[k], W)
+        self.W = W
+        self.meas = (R.jac_z(self.rz, T)[None, None, :, None]
+                     * R.jac_p(self.rp, T)[None, None, None, :] * pp / (4.0 * np.pi ** 2 * energy))
+        self.sq = (np.sqrt(1.0 - self.rz ** 2)[None, None, :, None]
+                   * np.sqrt(1.0 - self.rp ** 2)[None, None, None, :])
+        self.q0 = self.meas * self.sq * (np.pi ** 2 / (N * (N - 1)))
+        self.wq = self.q0 * np.abs(W)
+
+    def family(self, qd, rng, junk):
+        Q, Qb = R.eval_Q_nodes(qd, self.rz, self.rp)
+        with np.errstate(all="ignore"):
+            df = Q / (self.meas * self.W * self.sq)
+        nb = np.abs(df[..., 1])
+        df[..., 0] = rng.normal(size=nb.shape) * nb if junk else 0.0
+        return df, Qb
+
+    def lscale(self, absvals):
+        """sum_nodes |quadrature weight x W_k| |f| for the four moments: (4, P, M-1).  The
+        p_par = 0 node carries zero weight (pp = 0 in the measure)."""
+        return np.stack([np.sum(self.q0 * np.abs(self.Wk[k]) * absvals, axis=(2, 3))
+                         for k in range(4)])
+
+
+def _case_hist(case):
+    """getDeltas on a solver; the shared grid object is rescaled in place; getDeltas again
+    on the SAME solver.  Judged by the closed form for the grid as it is now, against a
+    solver built after the rescale on the same grid object, against a solver built before
+    the rescale but never used, and (final stage) against a solver on a grid constructed
+    directly in the final state."""
+    rng = np.random.default_rng(case["s"])
+    rig = _build(case, rng)
+    N, M, P = rig.N, rig.M, rig.P
+    bM, bN = case["bM"], case["bN"]
+    cheb = "Chebyshev" in (bM, bN)
+    sfx = "-chebyshev-input" if cheb else ""
+    plan = case["plan"]
+    viol = []
+    mon = {"getDeltas_calls": 0, "hist_rescale_calls": 0, "hist_grid_state_changed": 0,
+           "hist_kept_vs_fresh_rows": 0, "hist_uncalled_vs_fresh_rows": 0,
+           "hist_fresh_grid_rows": 0, "hist_position_invariance_rows": 0,
+           "hist_stages_judged": 0}
+    for nm in R.MOMENTS:
+        mon["hist_rows_" + nm] = 0
+    cls = ["hist", "hist:" + plan, "hist:" + case["grid"], f"hist:basis={bM}/{bN}",
+           f"hist:N={N}"]
+    st = dict(rig.state)
+    T_init = st["T"]
+    obs = {"N": N, "M": M, "P": P, "T_init": T_init, "bases": [bM, bN], "grid": case["grid"],
+           "mass": case["mass"], "plan": plan, "ops": [], "stages": []}
+    mats = _mats(rig, bM, bN)
+    grid = rig.grid
+
+    def call(s, arr):
+        mon["getDeltas_calls"] += 1
+        return _get(s.getDeltas(np.array(arr, dtype=float)).Deltas)
+
+    def desc():
+        return (f"{case['grid']} rescaled in place {obs['ops']} after getDeltas had been called on "
+                f"the solver; N={N}, M={M}, bases {bM}/{bN}, mass {case['mass']}, "
+                f"initial momentum scale {T_init:.4g}")
+
+    kept = rig.solver(bM, bN)          # used before and after
+    idle = rig.solver(bM, bN)          # built before, first used after the last rescale
+    K = 30.0 + (N - 1) ** 2 + (2 * (N - 1) + (M - 1) if cheb else 0)   # as in the linearity block
+    prev = None
+    content = False
+    changed_any = False
+
+    def to_input(nodal):
+        if cheb:
+            inp, represented, absum = R.to_coefficients(nodal, mats)
+            return inp, represented, absum
+        return nodal, nodal, np.abs(nodal)
+
+    def stage(idx, last):
+        nonlocal prev, content
+        T = st["T"]
+        orc = _Oracle(rig, T, int(rng.integers(4)))
+        qd = R.build_Q(rng, N, (P, M - 1), case["kpow"], case["deg"])
+        df, Qb = orc.family(qd, rng, case["junk"])
+        inp, represented, absum = to_input(df)
+        extra = np.zeros((P, M - 1))
+        if cheb:
+            nterms = 2 * (N - 1) + (M - 1) + 4
+            extra = np.sum(orc.wq * (np.abs(represented - df) + nterms * EPS * absum), axis=(2, 3))
+        ref = np.pi ** 2 * qd["c00"]
+        tol = _exact_tol(Qb, qd["c00"], orc.rz, orc.rp, N) + 2.0 * extra
+        scale = np.sum(Qb, axis=(-2, -1)) * np.pi ** 2 / (N * (N - 1))
+        g_in = rng.normal(size=df.shape) * 10.0 ** rng.uniform(-1, 1, size=df.shape) \
+            * float(np.median(absum[absum > 0]) if np.any(absum > 0) else 1.0)
+        g_abs = np.array(R.apply_mats(g_in, mats, absval=True), dtype=float) if cheb else np.abs(g_in)
+        after = idx > 0
+        record = {"stage": idx, "T": T}
+
+        solvers = [("kept", kept)]
+        fresh = rig.solver(bM, bN)
+        solvers.append(("fresh", fresh))
+        if last:
+            solvers.append(("idle", idle))
+            solvers.append(("freshgrid", rig.solver(bM, bN, grid=rig.new_grid(st))))
+        out = {}
+        for name, s_ in solvers:
+            try:
+                out[name] = (call(s_, inp), call(s_, g_in))
+            except Exception as exc:
+                viol.append({"mech": "getDeltas-raises" + sfx,
+                             "msg": f"getDeltas raised {exc!r} on the {name} solver at stage {idx} "
+                                    f"({desc()})", "data": {}})
+                return
+        mon["hist_stages_judged"] += 1
+
+        # (a) closed form, every solver
+        fails = {}
+        for name, (got, _) in out.items():
+            worst = {}
+            for a in range(P):
+                for al in range(M - 1):
+                    k = int(orc.target[a, al])
+                    nm = R.MOMENTS[k]
+                    err = abs(got[k, a, al] - ref[a, al])
+                    ratio = float(err / tol[a, al]) if np.isfinite(err) else math.inf
+                    if name == "kept" and after:
+                        mon["hist_rows_" + nm] += 1
+                        content = content or abs(ref[a, al]) > 1e-3 * scale[a, al]
+                    if ratio > worst.get(nm, (-1,))[0]:
+                        worst[nm] = (ratio, a, al, float(got[k, a, al]), float(ref[a, al]),
+                                     float(tol[a, al]))
+            record[name + "_err_over_tol"] = max(w[0] for w in worst.values())
+            fails[name] = {nm: w for nm, w in worst.items() if not w[0] <= 1.0}
+        for name, bad in fails.items():
+            for nm, w in bad.items():
+                if name in ("kept", "idle") and after and not fails["fresh"].get(nm):
+                    mech = f"{nm}-after-in-place-grid-rescale-differs-from-defined-momentum-integral"
+                    who = ("the solver used before the rescale" if name == "kept"
+                           else "the solver built before the rescale and first used after it")
+                elif name == "freshgrid" and not fails["fresh"].get(nm):
+                    continue        # judged under (c): the grid objects differ
+                elif name in ("kept", "idle", "freshgrid") and fails["fresh"].get(nm):
+                    continue        # not a matter of history: reported once, for the fresh solver
+                else:
+                    mech = f"{nm}-differs-from-defined-momentum-integral"
+                    who = "a solver built on the grid object in its present state"
+                viol.append({"mech": mech + sfx,
+                             "msg": f"{nm} from {who} at (species {w[1]}, z index {w[2]}) = {w[3]!r}, "
+                                    f"closed form pi^2 c00 for the present momentum scale "
+                                    f"{T:.6g} = {w[4]!r}: |diff| = {abs(w[3] - w[4]):.3e} = "
+                                    f"{w[0]:.3g} x rounding bound {w[5]:.3e}; stage {idx}; {desc()}",
+                             "data": {"got": w[3], "want": w[4], "tol": w[5], "T": T}})
+
+        # (b) same numbers whoever computes them: kept / idle vs fresh, all four moments,
+        #     exactness input and a generic one
+        tol_f = K * EPS * orc.lscale(absum) + 1e-300
+        tol_g = K * EPS * orc.lscale(g_abs) + 1e-300
+        for name in ("kept", "idle"):
+            if name not in out or not after:
+                continue
+            r_ = max(float(np.nanmax(np.abs(out[name][0] - out["fresh"][0]) / tol_f)),
+                     float(np.nanmax(np.abs(out[name][1] - out["fresh"][1]) / tol_g)))
+            finite = all(np.all(np.isfinite(x)) for x in out[name] + out["fresh"])
+            mon["hist_kept_vs_fresh_rows" if name == "kept" else "hist_uncalled_vs_fresh_rows"] += \
+                2 * int(out[name][0].size)
+            record[name + "_vs_fresh_over_tol"] = r_
+            if not (r_ <= 1.0 and finite):
+                d = np.abs(out[name][1] - out["fresh"][1]) / tol_g
+                k, a, al = np.unravel_index(np.nanargmax(np.where(np.isfinite(d), d, np.inf)), d.shape)
+                viol.append({"mech": ("moments-of-solver-used-before-grid-rescale-differ-from-fresh-solver"
+                                      if name == "kept" else
+                                      "moments-of-solver-built-before-grid-rescale-differ-from-fresh-solver")
+                                     + sfx,
+                             "msg": f"same grid object, same deviation: {R.MOMENTS[k]} = "
+                                    f"{float(out[name][1][k, a, al])!r} from the solver "
+                                    f"{'used' if name == 'kept' else 'built'} before the rescale, "
+                                    f"{float(out['fresh'][1][k, a, al])!r} from a solver built after it "
+                                    f"(ratio {out[name][1][k, a, al] / out['fresh'][1][k, a, al]:.9g}; "
+                                    f"{r_:.3g} x rounding bound); stage {idx}; {desc()}",
+                             "data": {"ratio_over_tol": r_}})
+
+        # (c) the grid object's own history must not matter
+        if "freshgrid" in out:
+            r_ = max(float(np.nanmax(np.abs(out["freshgrid"][0] - out["fresh"][0]) / tol_f)),
+                     float(np.nanmax(np.abs(out["freshgrid"][1] - out["fresh"][1]) / tol_g)))
+            mon["hist_fresh_grid_rows"] += 2 * int(out["fresh"][0].size)
+            record["freshgrid_vs_fresh_over_tol"] = r_
+            if not r_ <= 1.0:
+                viol.append({"mech": "moments-depend-on-grid-object-history" + sfx,
+                             "msg": f"moments on the rescaled grid object differ from those on a grid "
+                                    f"constructed directly with the same parameters {st} "
+                                    f"({r_:.3g} x rounding bound); {desc()}",
+                             "data": {"ratio_over_tol": r_}})
+
+        # (d) a position-only rescale leaves the moments of a given array alone (field values
+        #     are given on the nodes; nothing in the definition refers to xi)
+        if prev is not None and prev["T"] == T:
+            again = call(kept, prev["inp"])
+            r_ = float(np.nanmax(np.abs(again - prev["got"]) / prev["tol"]))
+            mon["hist_position_invariance_rows"] += int(again.size)
+            record["position_invariance_over_tol"] = r_
+            if not r_ <= 1.0:
+                viol.append({"mech": "moments-changed-by-position-rescale" + sfx,
+                             "msg": f"same solver, same array, same momentum scale: moments moved by "
+                                    f"{r_:.3g} x rounding bound across a position-only rescale; "
+                                    f"{desc()}", "data": {"ratio_over_tol": r_}})
+        prev = {"T": T, "inp": inp, "got": out["kept"][0], "tol": tol_f}
+        obs["stages"].append(record)
+
+    # ---- stage 0: the solver is used on the grid as constructed
+    for _ in range(case["warm"] - 1):
+        call(kept, rng.normal(size=(P, M - 1, N - 1, N - 1)))
+    stage(0, False)
+    steps = case["steps"]
+    for j, step in enumerate(steps):
+        before = (np.array(grid.pzValues), np.array(grid.ppValues), np.array(grid.xiValues))
+        if step["op"] == "mom":
+            st["T"] = T_init * step["rel"]
+            grid.changeMomentumFalloffScale(st["T"])
+            obs["ops"].append(f"momentum->{st['T']:.6g}")
+        else:
+            st["L"] *= step["fL"]
+            if case["grid"] == "Grid":
+                grid.changePositionFalloffScale(st["L"])
+                obs["ops"].append(f"position->{st['L']:.6g}")
+            else:
+                st["tailIn"] *= step["fIn"]
+                st["tailOut"] *= step["fOut"]
+                st["c"] += step["dc"] * st["L"]
+                # admissible domain: tails > L (1/2 + smoothing) / ratio (10 % margin)
+                bound = 1.1 * st["L"] * (0.5 + rig.smooth) / rig.ratio
+                st["tailIn"] = max(st["tailIn"], bound)
+                st["tailOut"] = max(st["tailOut"], bound)
+                grid.changePositionFalloffScale(st["tailIn"], st["tailOut"], st["L"], st["c"])
+                obs["ops"].append(f"position({step['which']})->tails {st['tailIn']:.4g}/"
+                                  f"{st['tailOut']:.4g}, L {st['L']:.4g}, c {st['c']:.4g}")
+        mon["hist_rescale_calls"] += 1
+        moved = (not np.array_equal(before[0], grid.pzValues) or not np.array_equal(before[1], grid.ppValues)
+                 if step["op"] == "mom" else not np.array_equal(before[2], grid.xiValues))
+        mon["hist_grid_state_changed"] += int(bool(moved))
+        changed_any = changed_any or bool(moved)
+        if case["rebg"]:
+            kept.setBackground(rig.bg)
+            idle.setBackground(rig.bg)
+        last = j == len(steps) - 1
+        if last or case["mid"]:
+            stage(j + 1, last)
+
+    key = (f"hist:{plan}:{N}:{M}:{case['grid']}:{bM}/{bN}:{case['mass']}:{P}:{case['kpow']}"
+           f":{case['s'] % 16}")
+    return {"key": key, "cls": cls, "nontrivial": bool(content and changed_any), "obs": obs,
+            "viol": viol, "mon": mon}
+
+
 # ------------------------------------------------------------------- oracle self-tests
 def _case_selftest(case):
     rng = np.random.default_rng(case["s"])
@@ -623,6 +1016,8 @@ def run_case(case):
         return _case_exact(case)
     if case["kind"] == "selftest":
         return _case_selftest(case)
+    if case["kind"] == "hist":
+        return _case_hist(case)
     return _case_smooth(case)
 
 
@@ -671,4 +1066,15 @@ def summarize(results, tier):
         cov[f"N={o['N']}|{o['bases'][0]}/{o['bases'][1]}|{o['mass']}"] = 1
     out["covered_N_x_basis_x_mass"] = len(cov)
     out["T0_decades"] = sorted({int(math.floor(r["case"]["logT0"])) for r in ex})
+    hs = [r for r in results if r["case"].get("kind") == "hist" and not r["inconclusive"]]
+    hist = {}
+    for nm in ("kept_err_over_tol", "fresh_err_over_tol", "idle_err_over_tol",
+               "freshgrid_err_over_tol", "kept_vs_fresh_over_tol", "idle_vs_fresh_over_tol",
+               "freshgrid_vs_fresh_over_tol", "position_invariance_over_tol"):
+        hist[nm] = stats([stg.get(nm) for r in hs for stg in r["obs"].get("stages", [])
+                          if stg["stage"] > 0 or not nm.startswith("kept")])
+    hist["momentum_scale_ratio_per_history"] = stats(
+        [max(stg["T"] for stg in r["obs"]["stages"]) / min(stg["T"] for stg in r["obs"]["stages"])
+         for r in hs if r["obs"].get("stages")])
+    out["history_residual_over_tolerance"] = hist
     return out
